@@ -9,6 +9,7 @@ pub mod framebuf;
 pub mod hbe2e;
 pub mod heartbeat;
 pub mod hs;
+pub mod hswrite;
 pub mod machine;
 pub mod obey;
 pub mod overlap;
@@ -32,6 +33,7 @@ pub fn make(name: &str) -> Option<Box<dyn Engine>> {
         "hbe2e" => Some(Box::new(hbe2e::HbE2e::default())),
         "heartbeat" => Some(Box::new(heartbeat::HeartbeatEngine::default())),
         "hs" => Some(Box::new(hs::HsEngine::default())),
+        "hswrite" => Some(Box::new(hswrite::HsWriteEngine::default())),
         "machine" => Some(Box::new(machine::MachineEngine::default())),
         "obey" => Some(Box::new(obey::ObeyEngine::default())),
         "overlap" => Some(Box::new(overlap::OverlapEngine::default())),
